@@ -2,7 +2,7 @@
 import copy, json
 from .. import common, gen, oracle, modelio, pipefam, pool
 
-RULE = ("triples (input, shifted by k up to 2^31-1-span, mirrored about M) whose left windows are not truncated, through the real "
+RULE = ("triples (input, shifted by k up to 2^31-1-span - two shifts in seven put the largest coordinate at or within one window of 2^31-1, so that right windows run past it -, mirrored about M) whose left windows are not truncated, through the real "
         "library stages; the implementation's own outputs are compared with each other (shift: every cell equal; mirror: left<->right "
         "exchanged, intra equal) and the base run with the model; monotonicity of round(v*D) over window lists with >= 3 windows, also for every third input pushed against coordinate 1 (left windows cut); "
         "non-trivial = same-group overlap and a TE on a region boundary; distinct = canonical JSON")
@@ -116,8 +116,9 @@ def make_triple(r, raw):
     hi = max([g["stop"] for g in base["genes"]] + [t["stop"] for t in base["tes"]])
     lo = min([g["start"] for g in base["genes"]] + [t["start"] for t in base["tes"]])
     room = MAXC - (hi + ws[-1] + 2)
-    k = r.choice([1, 1000, room, r.randint(0, max(0, room)), max(0, room - 1)])
-    k = max(0, min(k, room))
+    room2 = MAXC - hi          # every coordinate still <= 2^31-1, the right windows of the last genes run past it
+    k = r.choice([1, 1000, room, r.randint(0, max(0, room)), max(0, room - 1), room2, room2 - r.randint(0, ws[-1] + 1)])
+    k = max(0, min(k, room2))
     # mirror about M: p -> M - p ; keep coordinates >= 1 and left windows untruncated
     M = hi + lo + r.choice([0, 1, 17, ws[-1] + 5])
     M = max(M, hi + ws[-1] + 3)
@@ -172,7 +173,7 @@ def run(chk):
                 def still(cc):
                     b2, ws2 = untruncate(cc)
                     hi = max([g["stop"] for g in b2["genes"]] + [t["stop"] for t in b2["tes"]])
-                    k2 = max(0, min(k, MAXC - (hi + ws2[-1] + 2)))
+                    k2 = max(0, min(k, MAXC - hi))
                     lo = min([g["start"] for g in b2["genes"]] + [t["start"] for t in b2["tes"]])
                     M2 = max(hi + lo, hi + ws2[-1] + 3)
                     return bool(triple_failures(b2, ws2, k2, M2, pipefam.run_impl([b2, shifted(b2, k2), mirrored(b2, M2)])))
